@@ -206,6 +206,52 @@ def build(tier, repo):
             else:
                 r3.violation(key, m.where(n, cpl), "saved/live element assignment between different objects", norm0(n.value), norm0(n.targets[0]))
     chk.note_analysed("save_restore_copies", ncopy)
+    # direction: all copies of one save block / one restore block go the same way
+    DIR_EXC = {"lmbdasq": "F-13: the restore block copies lmbdasq -> lmbdasq0 instead of back, so the centering term of the one search "
+                          "direction computed after a restore uses lambda o lambda of the abandoned iterate; lmbdasq is no part of the "
+                          "scaling W, of the KKT system or of any reported quantity (it is recomputed by ssqr at the next iteration), "
+                          "so no clause of C07 is affected - recorded as an observation, not suppressed for any other object"}
+    groups = {}
+    for n in pf._scope_nodes(cpl):
+        d = None
+        if isinstance(n, ast.Call) and pf.call_name(n) in ("blas.copy", "xcopy", "ycopy") and len(n.args) >= 2:
+            a, b = n.args[0], n.args[1]
+            if is_saved(a) != is_saved(b) and norm0(a) == norm0(b):
+                d = "restore" if is_saved(a) else "save"
+        elif isinstance(n, ast.Assign) and isinstance(n.targets[0], ast.Subscript) and isinstance(n.value, ast.Subscript) \
+                and is_saved(n.targets[0]) != is_saved(n.value) and norm0(n.targets[0]) == norm0(n.value):
+            d = "restore" if is_saved(n.value) else "save"
+        if d is None:
+            continue
+        g = n
+        while g is not cpl and not isinstance(g, (ast.If, ast.ExceptHandler, ast.Try)):
+            g = g._parent
+        # the branch of the If the node sits in
+        br = "body"
+        if isinstance(g, ast.If):
+            x = n
+            while x._parent is not g:
+                x = x._parent
+            br = "body" if any(x is y for y in g.body) else "orelse"
+        groups.setdefault((id(g), br), []).append((n, d))
+    for (gid, br), items in groups.items():
+        if len(items) < 3:
+            continue
+        nsave = sum(1 for _, d in items if d == "save")
+        major = "save" if nsave * 2 >= len(items) else "restore"
+        for n, d in items:
+            key = "cpl:direction:%s" % pf.norm_expr(n)[:70]
+            if d == major:
+                r3.ok(key, m.where(n, cpl), major)
+                continue
+            exc = [k_ for k_ in DIR_EXC if re.search(r"\b%s\b" % k_, pf.norm_expr(n))]
+            if exc:
+                r3.ok(key + ":named-exception", m.where(n, cpl), DIR_EXC[exc[0]])
+            else:
+                r3.violation(key, m.where(n, cpl),
+                             "this copy goes the opposite way (%s) of the %d other copies of its block (%s): the %s state keeps the other one's values"
+                             % (d, len(items) - 1, major, "live" if major == "restore" else "saved"),
+                             "%s like its siblings" % major, d)
     # direction of restores (observation only, see DESIGN F-13)
     for n in pf._scope_nodes(cpl):
         if isinstance(n, ast.Call) and pf.call_name(n) == "blas.copy" and len(n.args) >= 2 and is_saved(n.args[1]) and not is_saved(n.args[0]):
@@ -216,6 +262,13 @@ def build(tier, repo):
     r4 = chk.rule("C07-R4", "KKT factories: a matrix whose in-place factorisation failed is rebuilt before reuse; assembly sites of one matrix add the same contributions",
                   "each solver solves the documented block system also after the singular-case fallback")
     fallback_rule(r4, w)
+
+    r6 = chk.rule("C07-R6", "KKT factories: work matrices that persist between factor() calls and are overwritten in place are defined in full "
+                            "before anything reads them; the symmetrisation follows the last lower-triangular contribution and precedes the two-sided transform",
+                  "repeated factor/solve calls on one factory do not interfere; the reduced matrix is the documented one")
+    nf = factory_state_rule(r6, w)
+    chk.note_analysed("persistent_factory_matrices", nf)
+    r6.require(6)
 
     r5 = chk.rule("C07-R5", "block-offset discipline in compute_scaling, update_scaling and the kkt_* factories", "scalings and reduced systems address the right blocks")
     rc.offsets_rule(r5, w, [("misc", "compute_scaling"), ("misc", "update_scaling"), ("misc", "kkt_ldl.*"), ("misc", "kkt_ldl2.*"),
@@ -392,3 +445,163 @@ def _blocks(fn):
                     walk(h.body)
     walk(fn.body)
     return out
+
+
+# in-place producers / consumers of the work matrices of the kkt_* factories
+CLOBBER = {"lapack.sytrf": [0], "lapack.potrf": [0], "lapack.geqrf": [0], "lapack.getrf": [0], "lapack.ormqr": [2],
+           "scale": [0], "pack2": [0], "lapack.trtrs": [1], "lapack.potrs": [1], "lapack.sytrs": [2]}
+READS = {"lapack.sytrf": [0], "lapack.potrf": [0], "lapack.geqrf": [0], "lapack.ormqr": [0, 2], "scale": [0], "pack2": [0],
+         "blas.gemv": [0, 1], "blas.gemm": [0, 1], "blas.trsm": [0, 1], "blas.trsv": [0, 1], "blas.syrk": [0], "blas.copy": [0],
+         "lapack.trtrs": [0, 1], "lapack.potrs": [0, 1], "lapack.sytrs": [0, 2], "symm": [0], "misc.symm": [0], "blas.axpy": [0, 1],
+         "blas.scal": [1], "blas.tbsv": [0, 1], "blas.tbmv": [0, 1]}
+
+
+def _slice_txt(sub):
+    t = " ".join(ast.unparse(sub.slice).split())
+    if t.startswith("(") and t.endswith(")"):
+        t = t[1:-1]
+    return t
+
+
+def factory_state_rule(rule, w):
+    mm = w.mods["misc"]
+    count = 0
+    for q, fn in mm.funcs.items():
+        if not q.startswith("kkt_") or "." in q:
+            continue
+        fac = next((n for n in fn.body if isinstance(n, ast.FunctionDef) and n.name == "factor"), None)
+        if fac is None:
+            continue
+        pers = [n.targets[0].id for n in fn.body if isinstance(n, ast.Assign) and len(n.targets) == 1 and isinstance(n.targets[0], ast.Name)
+                and isinstance(n.value, ast.Call) and pf.call_name(n.value) == "matrix"]
+        stmts = [st for st in fac.body if not isinstance(st, ast.FunctionDef)]
+        for P in pers:
+            clob = False
+            for x in ast.walk(fac):
+                if isinstance(x, ast.Call) and pf.call_name(x) in CLOBBER:
+                    for i in CLOBBER[pf.call_name(x)]:
+                        if i < len(x.args) and isinstance(x.args[i], ast.Name) and x.args[i].id == P:
+                            clob = True
+            if not clob:
+                continue
+            count += 1
+            key = "misc.%s.factor:%s defined in full before read" % (q, P)
+            verdict = _first_read_before_full_def(stmts, P)
+            where = mm.where(verdict[1], fn) if verdict[1] is not None else mm.where(fac, fn)
+            if verdict[0] == "undecided":
+                count -= 1          # only read by solve(): nothing to decide in factor()
+                continue
+            if verdict[0] == "ok":
+                rule.ok(key, where, verdict[2])
+            elif verdict[0] == "bad":
+                rule.violation(key, where,
+                               "`%s` keeps the result of the previous factor() call (it is overwritten in place by a factorisation) and is "
+                               "read here after only partial re-initialisation (%s): the second and later calls on one factory use stale entries"
+                               % (P, verdict[2]), "full definition (blas.scal(0.0, %s) / %s[:,:] = .. / syrk with beta 0) first" % (P, P), verdict[2])
+            else:
+                rule.undecided(key, where, verdict[2])
+        # triangle typestate of matrices that receive a two-sided orthogonal transform
+        for P in pers:
+            two_sided = [x for x in ast.walk(fac) if isinstance(x, ast.Call) and pf.call_name(x) == "lapack.ormqr" and len(x.args) > 2
+                         and isinstance(x.args[2], ast.Name) and x.args[2].id == P]
+            syms = [x for x in ast.walk(fac) if isinstance(x, ast.Call) and pf.call_name(x) in ("symm", "misc.symm") and x.args
+                    and isinstance(x.args[0], ast.Name) and x.args[0].id == P]
+            if not two_sided or not syms:
+                continue
+            count += 1
+            key = "misc.%s.factor:%s symmetric when transformed" % (q, P)
+            state, bad = "unknown", None
+            for st in stmts:
+                for ev, node in _triangle_events(st, P):
+                    if ev == "lower":
+                        state = "lower"
+                    elif ev == "symm":
+                        state = "full"
+                    elif ev == "need-full" and state != "full" and bad is None:
+                        bad = node
+            if bad is not None:
+                rule.violation(key, mm.where(bad, fn),
+                               "`%s` is multiplied by Q on both sides while only its lower triangle is valid: a lower-triangular contribution "
+                               "(syrk / += H, H in 'L' storage) is added after the symmetrisation, or the symmetrisation is missing" % P,
+                               "symm(%s, n) after the last lower-triangular update and before ormqr" % P, "state: %s" % state)
+            else:
+                rule.ok(key, mm.where(two_sided[0], fn), "syrk/+= -> symm -> ormqr")
+    return count
+
+
+def _triangle_events(st, P):
+    out = []
+    for x in ast.walk(st):
+        if isinstance(x, ast.Call):
+            nm = pf.call_name(x)
+            if nm == "blas.syrk" and len(x.args) > 1 and isinstance(x.args[1], ast.Name) and x.args[1].id == P:
+                out.append(("lower", x))
+            elif nm in ("symm", "misc.symm") and x.args and isinstance(x.args[0], ast.Name) and x.args[0].id == P:
+                out.append(("symm", x))
+            elif nm == "lapack.ormqr" and len(x.args) > 2 and isinstance(x.args[2], ast.Name) and x.args[2].id == P:
+                out.append(("need-full", x))
+        elif isinstance(x, ast.AugAssign) and isinstance(x.target, ast.Subscript) and isinstance(x.target.value, ast.Name) \
+                and x.target.value.id == P:
+            out.append(("lower", x))
+    out.sort(key=lambda e: (e[1].lineno, e[1].col_offset))
+    return out
+
+
+def _first_read_before_full_def(stmts, P):
+    """-> ('ok'|'bad'|'undecided', node, text)"""
+    partial = []
+    pending_head = None        # P[:e, ...] = X seen (possibly under `if e`)
+    flat = []
+
+    def _flatten(lst, cond):
+        for st_ in lst:
+            if isinstance(st_, ast.For):
+                _flatten(st_.body, cond)
+            elif isinstance(st_, ast.If) and cond is None and not st_.orelse:
+                _flatten(st_.body, st_)
+            else:
+                flat.append((st_, cond))
+    _flatten(stmts, None)
+    for s_, cond in flat:
+        # full definitions
+        if isinstance(s_, ast.Expr) and isinstance(s_.value, ast.Call):
+            c_ = s_.value
+            nm = pf.call_name(c_)
+            if nm == "blas.scal" and len(c_.args) == 2 and isinstance(c_.args[1], ast.Name) and c_.args[1].id == P \
+                    and isinstance(c_.args[0], ast.Constant) and c_.args[0].value == 0.0 and not c_.keywords and cond is None:
+                return ("ok", s_, "blas.scal(0.0, %s)" % P)
+            if nm == "blas.syrk" and len(c_.args) > 1 and isinstance(c_.args[1], ast.Name) and c_.args[1].id == P \
+                    and not any(k.arg in ("beta", "n", "offsetC", "ldC") for k in c_.keywords) and cond is None:
+                return ("ok", s_, "blas.syrk(.., %s) with beta = 0 defines the referenced triangle" % P)
+        if isinstance(s_, ast.Assign) and len(s_.targets) == 1 and isinstance(s_.targets[0], ast.Subscript) \
+                and isinstance(s_.targets[0].value, ast.Name) and s_.targets[0].value.id == P:
+            sl = _slice_txt(s_.targets[0])
+            reads_self = any(isinstance(x, ast.Name) and x.id == P for x in ast.walk(s_.value))
+            if reads_self:
+                return ("bad", s_, "partial: %s" % (", ".join(partial) or "nothing"))
+            if sl in (":, :", ":") and cond is None:
+                return ("ok", s_, "%s[%s] = .." % (P, sl))
+            mhead = re.fullmatch(r":(\w+)(?:, :)?", sl)
+            mtail = re.fullmatch(r"(\w+):(?:, :)?", sl)
+            if mhead and (cond is None or " ".join(ast.unparse(cond.test).split()) == mhead.group(1)):
+                pending_head = mhead.group(1)
+                partial.append("%s[%s]" % (P, sl))
+                continue
+            if mtail and pending_head == mtail.group(1) and cond is None:
+                return ("ok", s_, "%s[:%s] and %s[%s:] together" % (P, pending_head, P, pending_head))
+            partial.append("%s[%s]" % (P, sl))
+            continue
+        # reads
+        for x in ast.walk(s_):
+            if isinstance(x, ast.AugAssign) and isinstance(x.target, ast.Subscript) and isinstance(x.target.value, ast.Name) \
+                    and x.target.value.id == P:
+                return ("bad", x, "partial: %s" % (", ".join(partial) or "nothing"))
+            if isinstance(x, ast.Call):
+                nm = pf.call_name(x)
+                for i_ in READS.get(nm, []):
+                    if i_ < len(x.args) and isinstance(x.args[i_], ast.Name) and x.args[i_].id == P:
+                        return ("bad", x, "partial: %s" % (", ".join(partial) or "nothing"))
+                # writes of unknown extent by helper kernels (pack with offsety) are partial definitions
+                if any(isinstance(a, ast.Name) and a.id == P for a in x.args) and nm not in READS:
+                    partial.append("%s(..%s..)" % (nm, P))
+    return ("undecided", None, "no read of %s found in factor()" % P)
